@@ -128,54 +128,78 @@ func (z *c14Channelz) stop() {
 	z.srv.Stop()
 }
 
-func (z *c14Channelz) subchannels(target string) (total, ready int, err error) {
-	ctx, cancel := context.WithTimeout(context.Background(), 30*time.Second)
+// probe lists the sub-channels of the channel dialled to target. ok=false on any
+// error (a listed sub-channel id can be gone by the time it is queried, the
+// channel may not be listed yet): the caller simply polls again.
+func (z *c14Channelz) probe(target string) (total, ready int, ok bool) {
+	ctx, cancel := context.WithTimeout(context.Background(), 10*time.Second)
 	defer cancel()
 	var start int64
-	found := false
-	for !found {
+	for {
 		resp, err := z.cli.GetTopChannels(ctx, &czpb.GetTopChannelsRequest{StartChannelId: start, MaxResults: 1000})
 		if err != nil {
-			return 0, 0, err
+			return 0, 0, false
 		}
 		for _, ch := range resp.GetChannel() {
 			start = ch.GetRef().GetChannelId() + 1
 			if ch.GetData().GetTarget() != target {
 				continue
 			}
-			found = true
 			for _, ref := range ch.GetSubchannelRef() {
-				total++
 				sr, err := z.cli.GetSubchannel(ctx, &czpb.GetSubchannelRequest{SubchannelId: ref.GetSubchannelId()})
 				if err != nil {
-					return 0, 0, err
+					return 0, 0, false // churn: re-list
 				}
+				total++
 				if sr.GetSubchannel().GetData().GetState().GetState() == czpb.ChannelConnectivityState_READY {
 					ready++
 				}
 			}
-			break
+			return total, ready, true
 		}
-		if resp.GetEnd() {
-			break
+		if resp.GetEnd() || len(resp.GetChannel()) == 0 {
+			return 0, 0, false
 		}
 	}
-	if !found {
-		return 0, 0, fmt.Errorf("channel %q not listed by channelz", target)
-	}
-	return total, ready, nil
 }
 
-func TestVerifC14ClientOptions(t *testing.T) {
-	logx.Disable()
-	m := vk.New(t, "C14", "clients built through rpc/internal.NewClient(direct:///a,b,c) with no option, every ClientOption alone and every ordered pair of them, against 3 loopback gRPC servers (mock Deposit service): once channelz reports every sub-channel of the client READY (or that the client owns fewer sub-channels than backends), >= 300 sequential calls 10 ms apart on p2c's (virtual) clock, backends taking 1/2/3 virtual ms: every call is served by exactly one backend and every backend serves at least one call (p2c picks each backend at least through its once-per-second force-pick; pick_first uses exactly one)")
-	defer m.Done()
-	const nb = 3
-	// p2c measures latency, decay and the once-per-second force-pick on the timex
-	// clock: drive it virtually (10 ms between calls, 1/2/3 ms inside the three
-	// backends), so that "sustained traffic for N virtual seconds" is a call count.
-	timex.VerifFakeClock(400 * 24 * time.Hour)
-	defer timex.VerifRealClock()
+// readiness polls channelz until the sub-channel set is settled: either every
+// backend has a READY sub-channel, or two consecutive complete listings (50 ms
+// apart, after the first served call) agree that the client owns fewer
+// sub-channels than backends. ok=false: watchdog (30 s) expired.
+func (z *c14Channelz) readiness(target string, nb int) (total int, ok bool) {
+	lastFew, polls := -1, 0
+	ok = vk.WaitUntil(30*time.Second, func() bool {
+		t, r, good := z.probe(target)
+		polls++
+		if !good {
+			lastFew = -1
+			return false
+		}
+		total = t
+		if t >= nb {
+			lastFew = -1
+			return r >= nb
+		}
+		if t >= 1 && r == t && lastFew == t {
+			return true
+		}
+		lastFew = t
+		time.Sleep(50 * time.Millisecond)
+		return false
+	})
+	return total, ok
+}
+
+type c14Outcome struct {
+	total, calls int
+	served       []int64
+	sum          int64
+}
+
+// c14Attempt runs one option set against fresh servers. retry != "" means the
+// environment (not the property) got in the way: the caller tries again.
+func c14Attempt(nb, minCalls int, opts []ClientOption) (out c14Outcome, retry string) {
 	backends, err := c14StartBackends(nb)
 	defer func() {
 		for _, b := range backends {
@@ -183,20 +207,80 @@ func TestVerifC14ClientOptions(t *testing.T) {
 		}
 	}()
 	if err != nil {
-		m.Inconclusive("cannot listen on loopback: %v", err)
-		return
+		return out, fmt.Sprintf("cannot listen on loopback: %v", err)
 	}
 	z, err := c14StartChannelz()
 	if err != nil {
-		m.Inconclusive("cannot start the channelz service: %v", err)
-		return
+		return out, fmt.Sprintf("cannot start the channelz service: %v", err)
 	}
 	defer z.stop()
 	var addrs []string
 	for _, b := range backends {
 		addrs = append(addrs, b.addr)
 	}
-	target := "direct:///" + strings.Join(addrs, ",")
+	target := "direct:///" + strings.Join(addrs, ",") // unique per attempt (fresh ports)
+	cli, err := NewClient(target, opts...)
+	if err != nil {
+		return out, fmt.Sprintf("NewClient failed: %v", err)
+	}
+	defer cli.Conn().Close()
+	dc := mock.NewDepositServiceClient(cli.Conn())
+	call := func() error {
+		timex.VerifAdvance(c14CallGap)
+		ctx, cancel := context.WithTimeout(context.Background(), 30*time.Second)
+		defer cancel()
+		_, err := dc.Deposit(ctx, &mock.DepositRequest{Amount: 0})
+		return err
+	}
+	if err := call(); err != nil { // the channel is usable (also for WithNonBlock)
+		return out, fmt.Sprintf("first call failed: %v", err)
+	}
+	total, ok := z.readiness(target, nb)
+	if !ok {
+		return out, fmt.Sprintf("sub-channel readiness not established within 30 s (last listing: %d sub-channels)", total)
+	}
+	before := make([]int64, nb)
+	for i, b := range backends {
+		before[i] = atomic.LoadInt64(&b.calls)
+	}
+	served := func() (d []int64, sum int64, all bool) {
+		all = true
+		d = make([]int64, nb)
+		for i, b := range backends {
+			d[i] = atomic.LoadInt64(&b.calls) - before[i]
+			sum += d[i]
+			if d[i] == 0 {
+				all = false
+			}
+		}
+		return
+	}
+	calls := 0
+	for calls < 10*minCalls {
+		if err := call(); err != nil {
+			return out, fmt.Sprintf("call %d failed: %v", calls, err)
+		}
+		calls++
+		if calls >= minCalls {
+			if _, _, all := served(); all || total < nb {
+				break
+			}
+		}
+	}
+	d, sum, _ := served()
+	return c14Outcome{total: total, calls: calls, served: d, sum: sum}, ""
+}
+
+func TestVerifC14ClientOptions(t *testing.T) {
+	logx.Disable()
+	m := vk.New(t, "C14", "clients built through rpc/internal.NewClient(direct:///a,b,c) with no option, every ClientOption alone and every ordered pair of them, each against 3 fresh loopback gRPC servers (mock Deposit service): once channelz reports every sub-channel of the client READY (or, twice in a row, that the client owns fewer sub-channels than backends), >= 300 sequential calls 10 ms apart on p2c's (virtual) clock, backends taking 1/2/3 virtual ms: every call is served by exactly one backend and every backend serves at least one call (p2c picks each backend at least through its once-per-second force-pick; pick_first uses exactly one). Environment trouble (dial/call/channelz errors, readiness watchdog) => the case is retried on fresh servers, inconclusive only after 3 failed attempts")
+	defer m.Done()
+	const nb = 3
+	// p2c measures latency, decay and the once-per-second force-pick on the timex
+	// clock: drive it virtually (10 ms between calls, 1/2/3 ms inside the three
+	// backends), so that "sustained traffic for N virtual seconds" is a call count.
+	timex.VerifFakeClock(400 * 24 * time.Hour)
+	defer timex.VerifRealClock()
 
 	type combo struct {
 		name string
@@ -224,87 +308,49 @@ func TestVerifC14ClientOptions(t *testing.T) {
 			}
 			desc := fmt.Sprintf("case=%d;{\"options\":%q,\"backends\":%d,\"calls\":%d}", idx, cb.name, nb, minCalls)
 			m.Current(desc)
-			var opts []ClientOption
-			for _, o := range cb.opts {
-				opts = append(opts, o.mk())
+			var out c14Outcome
+			var reasons []string
+			done := false
+			for attempt := 1; attempt <= 3 && !done; attempt++ {
+				var opts []ClientOption
+				for _, o := range cb.opts {
+					opts = append(opts, o.mk())
+				}
+				var retry string
+				out, retry = c14Attempt(nb, minCalls, opts)
+				if retry == "" {
+					done = true
+				} else {
+					reasons = append(reasons, fmt.Sprintf("attempt %d: %s", attempt, retry))
+					m.Count("client_attempts_retried", 1)
+				}
 			}
-			cli, err := NewClient(target, opts...)
-			if err != nil {
-				m.Inconclusive("case %d (%s): NewClient failed: %v", idx, cb.name, err)
+			if !done {
+				m.Inconclusive("case %d (%s): all 3 attempts failed for environmental reasons: %s", idx, cb.name, strings.Join(reasons, " | "))
 				continue
 			}
-			func() {
-				defer cli.Conn().Close()
-				dc := mock.NewDepositServiceClient(cli.Conn())
-				call := func() error {
-					timex.VerifAdvance(c14CallGap)
-					ctx, cancel := context.WithTimeout(context.Background(), 30*time.Second)
-					defer cancel()
-					_, err := dc.Deposit(ctx, &mock.DepositRequest{Amount: 0})
-					return err
+			if len(reasons) > 0 {
+				m.Note("case %d (%s) needed a retry: %s", idx, cb.name, strings.Join(reasons, " | "))
+			}
+			all := true
+			for _, c := range out.served {
+				if c == 0 {
+					all = false
 				}
-				if err := call(); err != nil { // the channel is usable (also for WithNonBlock)
-					m.Inconclusive("case %d (%s): first call failed: %v", idx, cb.name, err)
-					return
-				}
-				total, _, err := z.subchannels(target)
-				if err != nil {
-					m.Inconclusive("case %d (%s): channelz: %v", idx, cb.name, err)
-					return
-				}
-				m.Count(fmt.Sprintf("client_channels_with_%d_subchannels", total), 1)
-				if total >= nb {
-					okReady := vk.WaitUntil(30*time.Second, func() bool {
-						_, r, e := z.subchannels(target)
-						return e == nil && r >= nb
-					})
-					if !okReady {
-						m.Inconclusive("case %d (%s): %d sub-channels but not all READY within 30 s", idx, cb.name, total)
-						return
-					}
-				}
-				var before [nb]int64
-				for i, b := range backends {
-					before[i] = atomic.LoadInt64(&b.calls)
-				}
-				served := func() (d [nb]int64, sum int64, all bool) {
-					all = true
-					for i, b := range backends {
-						d[i] = atomic.LoadInt64(&b.calls) - before[i]
-						sum += d[i]
-						if d[i] == 0 {
-							all = false
-						}
-					}
-					return
-				}
-				calls := 0
-				for calls < 10*minCalls {
-					if err := call(); err != nil {
-						m.Inconclusive("case %d (%s): call %d failed: %v", idx, cb.name, calls, err)
-						return
-					}
-					calls++
-					if calls >= minCalls {
-						if _, _, all := served(); all || total < nb {
-							break
-						}
-					}
-				}
-				d, sum, all := served()
-				m.Count("client_calls", int64(calls))
-				m.Count("client_scenarios", 1)
-				if m.WantSample() && (len(cb.opts) != 1 || cb.name == "WithTransportCredentials") {
-					m.Sample(map[string]any{"options": cb.name, "subchannels": total, "calls": calls, "served_per_backend": d})
-				}
-				if sum != int64(calls) {
-					m.Violate("C14:client:option-"+cb.name+":call-not-served-by-one-backend", desc, "%d successful calls but the backends served %d (%v)", calls, sum, d)
-				} else if !all {
-					m.Violate("C14:client:option-"+cb.name+":backend-never-picked", desc, "options [%s]: %d sequential calls after the client's %d sub-channel(s) were READY, served per backend %v: a resolved backend is never used (client owns %d sub-channels for %d backends)",
-						cb.name, calls, total, d, total, nb)
-				}
-				m.Case(vk.Digest(cb.name, total), true)
-			}()
+			}
+			m.Count(fmt.Sprintf("client_channels_with_%d_subchannels", out.total), 1)
+			m.Count("client_calls", int64(out.calls))
+			m.Count("client_scenarios", 1)
+			if m.WantSample() && (len(cb.opts) != 1 || cb.name == "WithTransportCredentials") {
+				m.Sample(map[string]any{"options": cb.name, "subchannels": out.total, "calls": out.calls, "served_per_backend": out.served})
+			}
+			if out.sum != int64(out.calls) {
+				m.Violate("C14:client:option-"+cb.name+":call-not-served-by-one-backend", desc, "%d successful calls but the backends served %d (%v)", out.calls, out.sum, out.served)
+			} else if !all {
+				m.Violate("C14:client:option-"+cb.name+":backend-never-picked", desc, "options [%s]: %d sequential calls after the client's %d sub-channel(s) were READY, served per backend %v: a resolved backend is never used (client owns %d sub-channels for %d backends)",
+					cb.name, out.calls, out.total, out.served, out.total, nb)
+			}
+			m.Case(vk.Digest(cb.name, out.total), true)
 		}
 	}
 	m.Count("client_unary_interceptor_calls", atomic.LoadInt64(&c14UnaryIcpt))
